@@ -105,7 +105,12 @@ Und kann so benutzt werden:
 
 Die Funktion f_zeiget mit dem Parameter t vom Typ Text, gibt nichts zurück, macht:
 	Schreibe den Buchstaben '<'.
+	Die Zahl lim ist (die Länge von t) plus 2.
 	Für jeden Buchstaben c in t, mache:
+		Verringere lim um 1.
+		Wenn lim kleiner als 0 ist, dann:
+			Schreibe den Text "!ILL-FORMED-TEXT".
+			Verlasse die Funktion.
 		Wenn c gleich '\\n' ist, Schreibe den Text "\\\\n".
 		Wenn aber c gleich '\\t' ist, Schreibe den Text "\\\\t".
 		Sonst Schreibe den Buchstaben c.
